@@ -34,6 +34,10 @@ CLAIMED = {
    "Structural conditions decided on every run: every range over a map in the series builder, CSV writer and command is classified by the effects of its body (per-key writes, set insertion, collect-then-sort incl. map-of-slices, constant early exit) and anything order-sensitive is reported with the reason; every slice handed to median/percentile is sorted on all paths and the pre-exposure sort of cell values cannot be skipped by a stale flag; the only randomness is a source seeded from the two cells' value hashes; the compact date form's slices partition exactly the bytes its pattern admits and every successful normalisation is t.UTC().Format(numeric-offset layout); the duplicate policy's decision table (extracted from the SSA of one iteration) equals DESIGN Appendix A6; combined samples are fresh slices.",
    "Does not decide that samples contain exactly the matching measurements (projection semantics, C08), the bootstrap's numerical bounds, or total-order ties between distinct keys with equal string values. Trusted: go/types, go/ssa, the effect table for the standard library in effects.go.",
    "map-range effect classification over SSA + write summaries (call-graph fixpoint) + typestate (sorted) + decision-table extraction"),
+ "C15": ("DESIGN.md §4 C15",
+   "Structural conditions for schedule- and map-order independence, decided on every run over everything reachable from the benchstat command (repository packages plus the statistics library's source, dynamic calls resolved with a VTA call graph): every map range is classified by the effects of its body and order-sensitive ones are reported (the intern-table eviction is allow-listed with a checked side obligation); for every go statement Add precedes it, the body calls Done and releases the limiter on every path, and a Wait lies on every path to the return and to the next phase; every write inside goroutine bodies (field-level write summaries propagated over the call graph) targets an object owned by the iteration, no written field is read through a link to another iteration's object, and shared lazily-built state is only written under sync.Once/sync.Map; no ambient nondeterminism is reachable; cell values are consumed only by the sorting constructor; the key comparison's decision table is total.",
+   "Does not decide byte identity of the output as such, the standard library's internals (covered by the reviewed effect table in effects.go), or aliasing through copied pointers beyond the type-based ownership rule. Trusted: go/types, go/ssa, x/tools VTA, the effect table.",
+   "map-range effect classification + goroutine join/ownership analysis over SSA with field-level write summaries and a VTA call graph"),
 }
 
 NOT_YET = "check not built yet in this round (planned in DESIGN.md); not claimed until its rules run clean on the unchanged tree"
